@@ -590,6 +590,5 @@ theorem decodeMacroblock_coded (hdr : PicHdr) (running : Nat) (ip : Bool) (ctx :
     simp only
     rw [tl]
     simp only [List.length_append, List.length_cons, List.length_nil, Nat.add_assoc, Nat.zero_add]
-    congr 3
 
 end H263V.Lemmas.RoundTrip
